@@ -57,6 +57,8 @@ func runC17(a *A) {
 		c17R3(a, r)
 		if rc := resolveRolesG(a, "C17-R3", "c"); rc != nil {
 			c17R3Ctor(a, rc)
+			// R5: the gate sees every packet: nothing is filtered or skipped between the socket and the parser
+			readerForwardsAll(a, "C17-R5", rc)
 		}
 	}
 	if rt := resolveRolesG(a, "C17-R4", "pt"); rt != nil {
